@@ -64,15 +64,17 @@ NA_REASON = "check not built yet in this round (planned in DESIGN.md section 6);
 
 # round 2 (DESIGN.md section 11): additions to the texts above
 ROUND2_TEXT = {
- "C01": " Round 2: a peer which owns the real chain may also choose WHICH genuine headers it reveals and regenerate a valid MMR proof for exactly that set (shape-only deviations: dropped samples, tail not reaching the boundary block or not ending at the parent of the last header, truncated reorg section); this decides the shape conditions on their own.",
- "C05": " Round 2: after every step the adopted tip may not move back to a lighter header (peers at different heights, child fast path of a lagging peer).",
- "C06": " Round 2: also an unsolicited authentic batch with another start number delivered after a restart while a matched-blocks record is pending in the store and not yet recovered into memory.",
+ "C01": " Round 2: a peer which owns the real chain may also choose WHICH genuine headers it reveals and regenerate a valid MMR proof for exactly that set (shape-only deviations: dropped samples, tail not reaching the boundary block or not ending at the parent of the last header, truncated reorg section); this decides the shape conditions on their own. Round 3: the requested last header echoed with the parent chain root, headers and proof of a competing branch of equal total difficulty.",
+ "C02": " Round 3: two requested transactions of different blocks answered with ONE genuine filtered block into which the other transaction is smuggled (made-up tree index placed according to the proof library's pairing, junk lemma, or no index at all), after a scripted set-up that puts both hashes into one GetTransactionsProof.",
+ "C05": " Round 2: after every step the adopted tip may not move back to a lighter header (peers at different heights, child fast path of a lagging peer). Round 3: the simulated chain has a real MMR activation boundary (no chain root commitment up to and including the first block of the activation epoch).",
+ "C06": " Round 2: also an unsolicited authentic batch with another start number delivered after a restart while a matched-blocks record is pending in the store and not yet recovered into memory. Round 3: the substituted hash may be a header the peer has announced but not proven; after a BlockFilters delivery no matched block may be flagged proved unless it is some peer's proven header.",
  "C11": " Round 2: one case in four starts with a scripted timeline (an unanswered fetch grows old while the last state is refreshed and a younger request is pending; generated offsets around the 60 s boundary), followed by random events.",
- "C12": " Round 2: also the three-message sequence proof, forged unproven sibling (recorded as last state), child of the proven header forged to agree with the sibling.",
+ "C12": " Round 2: also the three-message sequence proof, forged unproven sibling (recorded as last state), child of the proven header forged to agree with the sibling. Round 3: a pending proof request answered with a complete valid proof of the competing branch under the requested header.",
  "C16": " Round 2: one case in seven requests more than 1000 hashes at once (several GetBlocksProof / GetTransactionsProof per round); after the fair drain no requested hash, on chain or not, may still be 'fetching' without a request in flight.",
  "C18": " Round 2: also the same out point in two inputs with different mature since values.",
 }
 ROUND2_NOTE = {
+ "C02": " Fixed by this check in round 3: D36 (merkle-cbt drops a sibling-less node: a made-up index let an uncommitted transaction pass the transactions Merkle proof).",
  "C01": " Fixed by this check in round 2: D34 (sampled proof whose last-n section ends before the tip), D35 (last-n section starting after the boundary block).",
 }
 for _pid, _c in CHECKS.items():
